@@ -55,6 +55,18 @@ def mutants(base):
         for r in pool:
             if r != c:
                 yield "replace", i, base[:i] + r + base[i + 1:]
+    # the same single substitution with a character from another script or form that *means* a letter or digit (full-width,
+    # Arabic-Indic, mathematical ...): the one of the same value (the text looks right) and one of another value
+    from ..gens import equivalents_table
+    eq = equivalents_table()
+    for i in range(2, len(base)):
+        c = base[i]
+        same = eq.get(c) or []
+        pool = ASCII_DIGITS if c in ASCII_DIGITS else ASCII_UPPER
+        other = eq.get(pool[(pool.index(c) + 1 + i) % len(pool)]) or []
+        for lst, k in ((same, i), (same, i * 7 + 3), (other, i)):
+            if lst:
+                yield "replace-equivalent", i, base[:i] + lst[k % len(lst)] + base[i + 1:]
     for i in range(0, len(base) - 1):
         a, b = base[i], base[i + 1]
         if a != b and ((a in ASCII_DIGITS) == (b in ASCII_DIGITS)):
@@ -103,7 +115,7 @@ def shard(arg):
             # History warm-up: the verdict may not depend on what was parsed before (C15), so a *valid* IBAN of another
             # country with the same check digits and the mutant's BBAN text is parsed first whenever one exists; a cache
             # keyed on too little (BBAN text without the country) then shows up as an undetected typing error.
-            for other in siblings:
+            for other in (siblings if m.isascii() else ()):
                 if canonical_digits(other, m[4:]) == m[2:4] and o.accept_norm(other + m[2:]):
                     try:
                         IBAN(other + m[2:])
@@ -132,8 +144,11 @@ def run(ctx):
                 "only arithmetic (or the class a/n/c of the position) can reject it: all are non-trivial; distinct by text.")
     ctx.explanation = ("Oracle: the mutant must be rejected with a library error; cross-check that the independent "
                        "reference also rejects it (otherwise harness error).")
-    ctx.assumptions = ["'same kind' = ASCII digit for digit, ASCII upper-case letter for letter"]
+    ctx.assumptions = ["'same kind' = ASCII digit for digit, ASCII upper-case letter for letter; plus, per position, three characters "
+                       "of other scripts / forms that Unicode maps to a digit or letter (two of the same value, one of another)"]
+    from ..gens import equivalents_table
+    equivalents_table()        # built once, before the shards are forked
     ctx.pmap(shard, [(cc, ctx.seed, ctx.tier) for cc in oracle().countries()])
     from ._configs import stage as _config_stage
     _config_stage(ctx, ['parse'])
-    ctx.require_classes("mutant-argument-forms", "replace-digit", "replace-letter", "swap-digit", "swap-letter", "base-self-similar", "base-near-self-similar", "base-nationally-valid")
+    ctx.require_classes("replace-equivalent-digit", "replace-equivalent-letter", "mutant-argument-forms", "replace-digit", "replace-letter", "swap-digit", "swap-letter", "base-self-similar", "base-near-self-similar", "base-nationally-valid")
